@@ -51,6 +51,17 @@ func IDs() []string {
 type Ctx struct {
 	P *ir.Prog
 	R *report.Result
+	// keyNames: functions whose obligations are keyed by their role instead of their (private) name, so that a
+	// listed known finding survives a rename of the function
+	keyNames map[*ssa.Function]string
+}
+
+// KeyByRole makes the obligations located in fn use role (e.g. "role:redis.keyMapping") in their key.
+func (c *Ctx) KeyByRole(fn *ssa.Function, role string) {
+	if c.keyNames == nil {
+		c.keyNames = map[*ssa.Function]string{}
+	}
+	c.keyNames[fn] = "role:" + role
 }
 
 // fatal aborts the run of the property with a CHECK-ERROR (unresolved role etc.).
@@ -118,6 +129,9 @@ func (c *Ctx) add(rule string, fn *ssa.Function, construct string, at ssa.Instru
 	where := "-"
 	if fn != nil {
 		where = ir.FnName(fn)
+		if k, ok := c.keyNames[fn]; ok {
+			where = k
+		}
 		pos = c.P.Pos(fn.Pos())
 		c.Saw(fn)
 	}
